@@ -73,7 +73,8 @@ def main(tier, seed):
     # ---- behaviour of the module written for schemas/py_beh.exp: values of DERIVE attributes (nested - / * + ** DIV MOD),
     # WHERE rules, and which values the attribute setters accept (every simple type, defined types, enumeration, aggregates)
     BEH_DERIVE = {"remaining": 14.0, "left_nested": 10.0, "share": 5.0, "prod": 200.0, "mixed": 1.0, "grouped": 10.0, "powr": 81.0,
-                  "neg": -5.0, "idiv": 2.0, "imod": 1.0, "chain": 15.0, "total_kw": 11.0}
+                  "neg": -5.0, "idiv": 2.0, "imod": 1.0, "chain": 15.0, "total_kw": 11.0,
+                  "lit": 24.6913578, "big": 12345686.5}       # REAL literals with more than six digits
     BEH_SET = {("remaining", "derived"): "refuse",
                ("closed", "bool"): "accept", ("closed", "real"): "refuse", ("closed", "string"): "refuse", ("closed", "none"): "refuse",
                ("locked", "bool"): "accept", ("locked", "none"): "accept", ("locked", "int"): "refuse",
@@ -88,6 +89,9 @@ def main(tier, seed):
                ("history", "list_of_boolean"): "accept", ("history", "list_of_number"): "refuse", ("history", "bool"): "refuse",
                ("counts", "set_of_integer"): "accept", ("counts", "list_of_boolean"): "refuse",
                ("names", "list_of_string"): "accept", ("names", "none"): "accept", ("names", "set_of_integer"): "refuse"}
+    BEH_EXTRA = {"percent(50.0)": "ok", "percent(150.0)": "raise", "percent(-1.0)": "raise", "single_slot": "defined",
+                 "ruled(3)": "lab1:ok,lab2:ok,unnamed_wr_0:ok", "ruled(11)": "lab1:ok,lab2:ok,unnamed_wr_0:raise",
+                 "ruled(5)": "lab1:ok,lab2:raise,unnamed_wr_0:ok", "ruled(-2)": "lab1:raise,lab2:ok,unnamed_wr_0:ok"}
     bexp = os.path.join(VERIF, "schemas", "py_beh.exp")
     bdirw = os.path.join(wroot, "beh")
     os.makedirs(bdirw)
@@ -133,6 +137,10 @@ def main(tier, seed):
             seen_beh += 1
             if f[2] != "ok":
                 bad = "WHERE rule %s holds for budget(20., 8., 2., 9, 4, 2) but the generated method says %s" % (f[1], f[2])
+        elif f[0] == "EXTRA" and len(f) == 3:
+            seen_beh += 1
+            if BEH_EXTRA.get(f[1]) != f[2]:
+                bad = "%s of the module written for schemas/py_beh.exp gives %s, the schema gives %s (rules by label / unnamed_wr_<n> in the order of the unlabelled ones)" % (f[1], f[2], BEH_EXTRA.get(f[1]))
         elif f[0] == "SET" and len(f) == 4:
             seen_beh += 1
             want = BEH_SET.get((f[1], f[2]))
@@ -144,8 +152,8 @@ def main(tier, seed):
         else:
             hist["behaviour_probes"] += 1
     evals += 1
-    if seen_beh < len(BEH_DERIVE) + 14 + len(BEH_SET) and not any(l.startswith("ERR") for l in op_.split("\n")):
-        res.violation("the behaviour probe printed %d observations, %d expected: %s" % (seen_beh, len(BEH_DERIVE) + 14 + len(BEH_SET), (op_ + ep)[-300:]),
+    if seen_beh < len(BEH_DERIVE) + 14 + len(BEH_SET) + len(BEH_EXTRA) and not any(l.startswith("ERR") for l in op_.split("\n")):
+        res.violation("the behaviour probe printed %d observations, %d expected: %s" % (seen_beh, len(BEH_DERIVE) + 14 + len(BEH_SET) + len(BEH_EXTRA), (op_ + ep)[-300:]),
                       {"input_file": bexp}, found_input=False)
 
     def save(name, text):
